@@ -597,7 +597,7 @@ impl RoomAuthorisations {
                             if let Some(room) = self.rooms.get(room_id) {
                                 if let Some(old_room_id) = &old_node.room_id {
                                     if !old_room_id.eq(room_id) {
-                                        if let Some(old_room) = self.rooms.get(room_id) {
+                                        if let Some(old_room) = self.rooms.get(old_room_id) {
                                             let can = if same_user {
                                                 old_room.can(
                                                     verifying_key,
@@ -616,11 +616,13 @@ impl RoomAuthorisations {
                                             if !can {
                                                 return Err(Error::AuthorisationRejected(
                                                     to_insert.entity.clone(),
-                                                    base64_encode(room_id),
+                                                    base64_encode(old_room_id),
                                                 ));
                                             }
                                         } else {
-                                            return Err(Error::UnknownRoom(base64_encode(room_id)));
+                                            return Err(Error::UnknownRoom(base64_encode(
+                                                old_room_id,
+                                            )));
                                         }
                                     }
                                 }
